@@ -9,6 +9,9 @@ package mint
 // Invariant of the proof tables: no Y is both pending and spent (assumed at
 // entry of the public operations, proved preserved by each of them).
 //@ macro dbinv() = (forall y Str :: !(db.pending[y] && db.spent[y]))
+// No mint quote shares the payment hash of an MPP melt quote (MPP melts are
+// never internal): established by RequestMeltQuote, preserved by A-LN3.
+//@ macro mppinv() = (forall q Str, x Str :: db.melt[q] && db.meltrow[q].IsMpp && db.mq[x] ==> db.mqrow[x].PaymentRequest != db.meltrow[q].InvoiceRequest) && (forall x Str, y Str :: db.mq[x] && db.mq[y] && db.mqrow[x].PaymentHash == db.mqrow[y].PaymentHash ==> x == y) && (forall x Str :: db.mq[x] ==> decode.hash(db.mqrow[x].PaymentRequest) == db.mqrow[x].PaymentHash) && (forall q Str :: db.melt[q] ==> decode.hash(db.meltrow[q].InvoiceRequest) == db.meltrow[q].PaymentHash)
 //@ macro minv(m) = m.db != nil && m.lightningClient != nil && m.activeKeyset != nil && m.keysets != nil && m.logger != nil && m.publisher != nil
 
 //@ func (*Mint).TransactionFees
@@ -55,6 +58,8 @@ package mint
 //@   tags C03
 //@   safety C06
 //@   requires minv(m)
+//@   requires mppinv()
+//@   ensures @mppinv [C02] mppinv()
 //@   calls (storage.MintDB).UpdateMintQuoteState asserts @unpaid2paid [C03] db.mq[quoteId] && db.mqrow[quoteId].State == nut04.Unpaid && state == nut04.Paid
 //@   ensures @state [C03] err == nil ==> db.mq[quoteId] && result == db.mqrow[quoteId] && result.Id == quoteId
 //@   ensures @frame [C03] forall q Str :: q != quoteId ==> db.mqrow[q] == old(db.mqrow)[q]
@@ -64,6 +69,8 @@ package mint
 //@   tags C03
 //@   safety C06
 //@   requires minv(m)
+//@   requires mppinv()
+//@   ensures @mppinv [C02] mppinv()
 //@   loop $1:range(blindedMessages) invariant 0 <= i && i <= len(blindedMessages) && len(B_s) == len(blindedMessages) && (forall j :: 0 <= j && j < i ==> B_s[j] == blindedMessages[j].B_)
 //@   ensures @paidbefore [C03] err == nil && result != nil ==> old(db.mq)[mintTokensRequest.Quote] && (old(db.mqrow)[mintTokensRequest.Quote].State == nut04.Paid || old(db.mqrow)[mintTokensRequest.Quote].State == nut04.Unpaid)
 //@   ensures @issuedafter [C03] err == nil && result != nil ==> db.mqrow[mintTokensRequest.Quote].State == nut04.Issued
@@ -103,6 +110,8 @@ package mint
 //@   tags C02 C03 C05
 //@   safety C06
 //@   requires minv(m)
+//@   requires mppinv()
+//@   ensures @mppinv [C02] mppinv()
 //@   requires db.melt[meltQuote.Id] && db.meltrow[meltQuote.Id].State == nut05.Pending
 //@   requires db.mq[mintQuote.Id] && mintinv(db.mqrow[mintQuote.Id])
 //@   ensures @result [C05] err == nil ==> result == setfield(setfield(meltQuote, "State", nut05.Paid), "Preimage", result.Preimage)
@@ -118,12 +127,15 @@ package mint
 //@   tags C05
 //@   safety C06
 //@   requires minv(m)
+//@   requires mppinv()
+//@   ensures @mppinv [C02] mppinv()
 //@   requires dbinv()
 //@   ensures @dbinv [C01,C05] dbinv()
 //@   loop range(proofs) invariant 0 <= i && i <= len(proofs) && len(Ys) == len(proofs) && proofsAmount == sum.proof.amount(seq(proofs), i) % 18446744073709551616 && (forall j :: 0 <= j && j < i ==> Ys[j] == Yof(proofs[j].Secret))
 //@   calls (lightning.Client).SendPayment asserts @feelimit [C02] maxFee <= db.meltrow[meltTokensRequest.Quote].FeeReserve && request == db.meltrow[meltTokensRequest.Quote].InvoiceRequest
 //@   calls (lightning.Client).PayPartialAmount asserts @feelimit [C02] maxFee <= db.meltrow[meltTokensRequest.Quote].FeeReserve && request == db.meltrow[meltTokensRequest.Quote].InvoiceRequest && amountMsat == db.meltrow[meltTokensRequest.Quote].AmountMsat
 //@   calls (storage.MintDB).AddPendingProofs asserts @burn [C02] sum.proof.amount(seq(ps), len(ps)) >= db.meltrow[meltTokensRequest.Quote].Amount + db.meltrow[meltTokensRequest.Quote].FeeReserve + fee.tx(seq(ps), mapkeys(m.keysets), mapvals(m.keysets), len(ps)) && ps == meltTokensRequest.Inputs && quoteId == meltTokensRequest.Quote
+//@   calls (*Mint).settleQuotesInternally asserts @covers [C02,C03] meltQuote.Amount >= mintQuote.Amount
 //@   calls (lightning.Client).SendPayment asserts @lockedfirst [C01,C05,C07] (forall i :: 0 <= i && i < len(meltTokensRequest.Inputs) ==> db.pending[Yof(meltTokensRequest.Inputs[i].Secret)]) && db.meltrow[meltTokensRequest.Quote].State == nut05.Pending
 //@   calls (lightning.Client).PayPartialAmount asserts @lockedfirst [C01,C05,C07] (forall i :: 0 <= i && i < len(meltTokensRequest.Inputs) ==> db.pending[Yof(meltTokensRequest.Inputs[i].Secret)]) && db.meltrow[meltTokensRequest.Quote].State == nut05.Pending
 //@   ensures @states [C05] err == nil ==> result.State == nut05.Paid || result.State == nut05.Unpaid || result.State == nut05.Pending
@@ -149,6 +161,8 @@ package mint
 //@   tags C05
 //@   safety C06
 //@   requires minv(m)
+//@   requires mppinv()
+//@   ensures @mppinv [C02] mppinv()
 //@   requires dbinv()
 //@   ensures @dbinv [C01,C05] dbinv()
 //@   ensures @notpending [C05] old(db.melt)[quoteId] && old(db.meltrow)[quoteId].State != nut05.Pending ==> ln.nst == old(ln.nst) && db.meltrow == old(db.meltrow) && db.pending == old(db.pending) && db.spent == old(db.spent) && (err == nil ==> result == db.meltrow[quoteId])
@@ -168,8 +182,10 @@ package mint
 //@   tags C15
 //@   safety C06
 //@   requires minv(m)
+//@   requires mppinv()
+//@   ensures @mppinv [C02] mppinv()
 //@   requires dbinv()
-//@   loop range(pendingQuotes) invariant dbinv() && (forall y Str :: old(db.spent)[y] ==> db.spent[y]) && db.sig == old(db.sig)
+//@   loop range(pendingQuotes) invariant mppinv() && dbinv() && (forall y Str :: old(db.spent)[y] ==> db.spent[y]) && db.sig == old(db.sig)
 //@   loop range(Ys) invariant 0 <= i && i <= len(Ys) && len(proofStates) == len(Ys) && (forall j :: 0 <= j && j < i ==> proofStates[j].Y == Ys[j] && truestate(proofStates[j], Ys[j]))
 //@   ensures @len [C15] err == nil ==> len(result) == len(Ys)
 //@   ensures @truth [C15,C01,C05] err == nil ==> (forall i :: 0 <= i && i < len(Ys) ==> result[i].Y == Ys[i] && truestate(result[i], Ys[i]))
@@ -185,3 +201,58 @@ package mint
 //@   ensures @signedonly [C15] err == nil ==> (forall j :: 0 <= j && j < len(r0) ==> db.sig[r0[j].B_] && r1[j].Amount == db.sigrow[r0[j].B_].Amount && r1[j].C_ == db.sigrow[r0[j].B_].C_ && r1[j].Id == db.sigrow[r0[j].B_].Id && r1[j].DLEQ != nil && r1[j].DLEQ.E == db.sigrow[r0[j].B_].E && r1[j].DLEQ.S == db.sigrow[r0[j].B_].S)
 //@   ensures @fromrequest [C15] err == nil ==> (forall j :: 0 <= j && j < len(r0) ==> (exists k :: 0 <= k && k < len(blindedMessages) && r0[j] == blindedMessages[k]))
 //@   ensures @frame [C15] db.sig == old(db.sig) && db.sigrow == old(db.sigrow)
+
+// A-INV16: the totals kept by the store stay below 2^63 (sqlite cannot even
+// store larger amounts) and redeemed ecash was issued before (no counterfeits).
+//@ macro totalsinv() = 0 <= db.redeemedtotal && db.redeemedtotal <= db.issuedtotal && db.issuedtotal < 9223372036854775808
+
+//@ func (*Mint).TotalBalance
+//@   tags C16
+//@   safety C06
+//@   requires minv(m)
+//@   requires totalsinv()
+//@   loop range(ecashIssued) invariant 0 <= i && i <= n && totalIssued == esum.str(keys, mapvals(ecashIssued), i) % 18446744073709551616
+//@   loop range(ecashRedeemed) invariant 0 <= i && i <= n && totalRedeemed == esum.str(keys, mapvals(ecashRedeemed), i) % 18446744073709551616 && totalIssued == db.issuedtotal
+//@   ensures @balance [C16] err == nil ==> r0 == db.issuedtotal - db.redeemedtotal
+//@   ensures @errisfault [C16] err != nil ==> db.faults > old(db.faults)
+
+//@ func (*Mint).RequestMintQuote
+//@   tags C16 C03
+//@   safety C06
+//@   requires minv(m)
+//@   requires mppinv()
+//@   ensures @mppinv [C02] db.faults == old(db.faults) ==> mppinv()
+//@   requires totalsinv()
+//@   ensures @maxmint [C16] err == nil && m.limits.MintingSettings.MaxAmount > 0 ==> mintQuoteRequest.Amount <= m.limits.MintingSettings.MaxAmount
+//@   ensures @maxbalance [C16] err == nil && m.limits.MaxBalance > 0 ==> db.issuedtotal - db.redeemedtotal + mintQuoteRequest.Amount <= m.limits.MaxBalance
+//@   ensures @unpaid [C03] err == nil ==> result.State == nut04.Unpaid && result.Amount == mintQuoteRequest.Amount && db.mq[result.Id] && db.mqrow[result.Id] == result && !old(db.mq)[result.Id]
+//@   ensures @others [C03] forall q Str :: old(db.mq)[q] ==> db.mq[q] && db.mqrow[q] == old(db.mqrow)[q]
+
+//@ func (*Mint).RequestMeltQuote
+//@   tags C16 C02
+//@   safety C06
+//@   requires minv(m)
+//@   requires mppinv()
+//@   ensures @mppinv [C02] db.faults == old(db.faults) ==> mppinv()
+//@   ensures @maxmelt [C16] err == nil && m.limits.MeltingSettings.MaxAmount > 0 ==> result.Amount <= m.limits.MeltingSettings.MaxAmount
+//@   ensures @row [C02] err == nil ==> result.State == nut05.Unpaid && db.melt[result.Id] && db.meltrow[result.Id] == result && !old(db.melt)[result.Id] && result.InvoiceRequest == meltQuoteRequest.Request
+//@   ensures @nompp [C02] err == nil && !m.mppEnabled ==> !result.IsMpp
+//@   ensures @mppexternal [C02] err == nil && result.IsMpp && db.faults == old(db.faults) ==> (forall q Str :: db.mq[q] ==> db.mqrow[q].PaymentRequest != result.InvoiceRequest)
+//@   ensures @mpppartial [C02] err == nil && result.IsMpp ==> result.AmountMsat < decode.msat(result.InvoiceRequest) && result.Amount == result.AmountMsat / 1000
+//@   ensures @others [C05] forall q Str :: old(db.melt)[q] ==> db.melt[q] && db.meltrow[q] == old(db.meltrow)[q]
+//@   ensures @unique [C02] err == nil && db.faults == old(db.faults) ==> (forall q Str :: old(db.melt)[q] ==> old(db.meltrow)[q].InvoiceRequest != meltQuoteRequest.Request)
+
+//@ func (*Mint).requestInvoice
+//@   tags C03
+//@   safety C06
+//@   requires minv(m)
+//@   ensures @invoice [C03] err == nil ==> result != nil && decode.msat(result.PaymentRequest) == amount * 1000 && decode.hash(result.PaymentRequest) == result.PaymentHash
+//@   ensures @freshhash [C02] err == nil ==> (forall q Str :: db.melt[q] ==> db.meltrow[q].PaymentHash != result.PaymentHash) && (forall q Str :: db.mq[q] ==> db.mqrow[q].PaymentHash != result.PaymentHash)
+//@   ensures @errnil err != nil ==> result == nil
+
+//@ func (Mint).RetrieveMintInfo
+//@   tags C16
+//@   safety C06
+//@   requires minv(m)
+//@   requires totalsinv()
+//@   ensures @disabled [C16] err == nil ==> (result.Nuts.Nut04.Disabled <==> (m.limits.MaxBalance > 0 && db.issuedtotal - db.redeemedtotal >= m.limits.MaxBalance))
